@@ -418,48 +418,52 @@ def use_profile(f):
             if l.get('k') == 'local':
                 mutated.add(l['i'])
 
-    def origin(e, depth=0):
+    def origin(e, hops=0, nest=0):
+        """hops: `let` bindings followed (bounded, helper expansion adds a few); nest: 1 while naming the inputs of a producing call (one level only)"""
         e = peel(e)
         while e.get('k') in ('try', 'cast', 'stmt') or (e.get('k') == 'mcall' and not e.get('args') and (callee(e) or '').rsplit('::', 1)[-1] in PLUMBING):
             e = peel(e['recv'] if e.get('k') == 'mcall' else e['e'])
         k = e.get('k')
         if k == 'block' and isinstance(e.get('e'), dict):
-            return origin(e['e'], depth)          # the value of a block is its tail expression
+            return origin(e['e'], hops, nest)          # the value of a block is its tail expression
         if k == 'lit':
             return 'literal'
         if k == 'path':
             return 'const ' + short(norm_(e.get('p') or ''))
         if k == 'call' and e.get('dk') == 'Ctor' and (e.get('f') or '').endswith(('Result::Ok', 'Option::Some')) and len(e.get('args', [])) == 1:
-            return origin(e['args'][0], depth)          # Ok(x)? / Some(x): the wrapped value
+            return origin(e['args'][0], hops, nest)          # Ok(x)? / Some(x): the wrapped value
         if k == 'iret' and isinstance(e.get('e'), dict):
-            return origin(e['e'], depth)
+            return origin(e['e'], hops, nest)
         if k in ('call', 'mcall'):
             c = callee(e)
             if not c:
                 return 'expr'
             # which inputs the producing call was given (one level): tells `is_equal(p.x, q.x)` from `is_equal(p.y, q.y)`, `query(cfg.q_a)` from `query(cfg.q_b)`
             inner = []
-            if depth < 3:
+            if nest == 0:
                 for a in ([e['recv']] if k == 'mcall' else []) + list(e.get('args', [])):
-                    o = origin(a, depth + 3)
+                    t = (peel(a).get('t') or a.get('t') or '')
+                    if 'Layouter' in t or 'Region' in t:
+                        continue
+                    o = origin(a, hops, 1)
                     if o.startswith(('#', 'const ')) and o != '#0':
                         inner.append(o)
             return 'result of ' + short(c) + ('(' + ', '.join(inner) + ')' if inner else '')
         if k in ('bin', 'un') and e.get('f'):
             return 'result of ' + short(norm_(e['f'])) + ':' + str(e.get('op'))
         if k == 'field' and not str(e.get('n', '')).isdigit():
-            o = origin(e['e'], depth)
+            o = origin(e['e'], hops, nest)
             return o + '.' + e['n'] if o.startswith('#') else o
         if k in ('field', 'index'):
-            return origin(e['e'], depth)
+            return origin(e['e'], hops, nest)
         if k == 'local':
             i = e['i']
             if i in params:
                 return params[i]
             if i in mutated:
                 return 'mutable local'
-            if i in lets and depth < 4:
-                return origin(lets[i], depth + 1)
+            if i in lets and hops < 10:
+                return origin(lets[i], hops + 1, nest)
             return 'local'
         if k == 'closure':
             return 'closure'
